@@ -97,8 +97,13 @@ def run_harness(family, tier, seed, modes):
                            stdout=subprocess.PIPE, stderr=subprocess.PIPE, text=True, env=C.goenv())
         if p.returncode != 0:
             raise RuntimeError("harness gen failed: " + p.stderr[-3000:])
-        rows = [json.loads(l) for l in p.stdout.split("\n") if l.strip()]
-        return rows, p.stderr
+        allrows = [json.loads(l) for l in p.stdout.split("\n") if l.strip()]
+        rows = [r for r in allrows if "decl" in r]
+        extra = {}
+        for r in allrows:
+            if "race_summary" in r:
+                extra["race"] = r["race_summary"]
+        return rows, extra
     finally:
         shutil.rmtree(work, ignore_errors=True)
 
